@@ -1,8 +1,12 @@
 package main
 
 import (
+	"context"
 	"fmt"
 	"go/ast"
+	"os"
+	"os/exec"
+	"path/filepath"
 	"go/token"
 	"go/types"
 	"runtime/debug"
@@ -106,7 +110,7 @@ func (e *Engine) effective(c *Contract, tgt *funcTarget) *Contract {
 	}
 	m := *c
 	renC := func(cl *Clause) *Clause {
-		return &Clause{Text: cl.Text + "   (from " + c.Impl + ")", Expr: renameIdents(cl.Expr, ren), Line: cl.Line, File: cl.File}
+		return &Clause{Props: cl.Props, Text: cl.Text + "   (from " + c.Impl + ")", Expr: renameIdents(cl.Expr, ren), Line: cl.Line, File: cl.File}
 	}
 	m.Requires = nil
 	for _, r := range ic.Requires {
@@ -118,6 +122,11 @@ func (e *Engine) effective(c *Contract, tgt *funcTarget) *Contract {
 		m.Ensures = append(m.Ensures, renC(r))
 	}
 	m.Ensures = append(m.Ensures, c.Ensures...)
+	m.Running = nil
+	for _, r := range ic.Running {
+		m.Running = append(m.Running, renC(r))
+	}
+	m.Running = append(m.Running, c.Running...)
 	m.Modifies = nil
 	m.ModText = nil
 	for k, x := range ic.Modifies {
@@ -234,9 +243,21 @@ func (e *Engine) VerifyFunc(c *Contract) {
 	}()
 	pkg := tgt.pkg
 	c = e.effective(c, tgt)
+	{
+		cp := *c
+		cp.Requires = e.activeClauses(c.Requires)
+		cp.Ensures = e.activeClauses(c.Ensures)
+		cp.Running = e.activeClauses(c.Running)
+		cp.Loops = map[int]*LoopSpec{}
+		for k, ls := range c.Loops {
+			cp.Loops[k] = &LoopSpec{Invariants: e.activeClauses(ls.Invariants), ModExtra: ls.ModExtra}
+		}
+		c = &cp
+	}
 	fc := &FnCtx{e: e, pkg: pkg, info: pkg.TypesInfo, decl: tgt.decl, body: tgt.body, c: c, name: name,
 		counters: map[string]int{}, modified: map[types.Object]bool{}}
 	fc.sig = tgt.sig
+	fc.gen = e.genInfo[c.Key()]
 	fc.index()
 	st := NewState()
 	st.ghost[failedKey] = Var("failedDuring0", SBool)
@@ -308,17 +329,20 @@ func (e *Engine) VerifyFunc(c *Contract) {
 		sc.pol = -1
 		// dyntype(param, T): bind the interface-typed parameter to a value of dynamic type T
 		if call, ok := r.Expr.(*ast.CallExpr); ok && exprString(call.Fun) == "dyntype" && len(call.Args) == 2 {
-			if id, ok := call.Args[0].(*ast.Ident); ok {
-				if obj, ok := st.names[id.Name]; ok {
-					t := e.evalTypeExpr(pkg, tgt.body.Lbrace+1, call.Args[1])
-					pv := e.freshValue(st, id.Name+".dyn", t, true)
-					if p, ok := pv.(*PtrV); ok {
-						p.Nil = False
-					}
-					st.vars[obj] = e.boxIface(st, pv, t)
-					continue
-				}
+			lv := sc.lvalue(call.Args[0])
+			hint := strings.ReplaceAll(exprString(call.Args[0]), "templ_7745c5c3_", "")
+			if id, ok := call.Args[1].(*ast.Ident); ok && id.Name == "opaque" {
+				// an arbitrary writer that is none of the types the code tests for
+				lv.set(&IfaceV{Tag: Int(e.typeTag("opaque-writer")), Id: Var(hint+".id", SInt), Payloads: map[string]Value{}})
+				continue
 			}
+			t := e.evalTypeExpr(pkg, tgt.body.Lbrace+1, call.Args[1])
+			pv := e.freshValue(st, hint+".dyn", t, true)
+			if p, ok := pv.(*PtrV); ok {
+				p.Nil = False
+			}
+			lv.set(e.boxIface(st, pv, t))
+			continue
 		}
 		// "target(x) == y" on writer identities: bind (ghost state is keyed by identity).
 		// Under "implies(dyntype(..), ...)" the binding is unconditional: when the
@@ -744,7 +768,116 @@ type Tier struct {
 var quickTier = Tier{"quick", 10, 30, false}
 var thoroughTier = Tier{"thorough", 60, 0, true}
 
+// batchDischarge sends groups of obligations to one z3-new process each (push /
+// pop around every obligation, per-query timeout). Only definite answers are
+// taken: unsat discharges an obligation, sat satisfies a cover query; everything
+// else falls through to the individual solver race (which also produces models).
+func (e *Engine) batchDischarge(workdir string) {
+	var pending []*Obligation
+	for _, o := range e.obls {
+		if o.Verdict == "" && o.LangLeft == nil {
+			pending = append(pending, o)
+		}
+	}
+	if len(pending) < 40 {
+		return
+	}
+	const chunk = 48
+	var wg sync.WaitGroup
+	sem := make(chan struct{}, 16)
+	os.MkdirAll(workdir, 0o755)
+	for i := 0; i < len(pending); i += chunk {
+		j := i + chunk
+		if j > len(pending) {
+			j = len(pending)
+		}
+		group := pending[i:j]
+		idx := i / chunk
+		wg.Add(1)
+		go func() {
+			defer wg.Done()
+			sem <- struct{}{}
+			defer func() { <-sem }()
+			p := &smtPrinter{decls: map[string]decl{}, memo: map[string]string{}}
+			sliced := make([][]*Term, len(group))
+			goals := make([]*Term, len(group))
+			for gi, o := range group {
+				sliced[gi], goals[gi] = SliceHyps(o.Hyps, o.Goal), o.Goal
+				if o.AbsPrefix && !o.Cover {
+					sliced[gi], goals[gi] = AbstractPrefix(sliced[gi], goals[gi])
+				}
+			}
+			for gi := range group {
+				for _, h := range sliced[gi] {
+					p.collect(h, nil)
+				}
+				if goals[gi] != nil {
+					p.collect(goals[gi], nil)
+				}
+			}
+			var sb strings.Builder
+			sb.WriteString("(set-option :timeout 3000)\n(set-logic ALL)\n")
+			names := append([]string(nil), p.order...)
+			sort.Strings(names)
+			for _, n := range names {
+				d := p.decls[n]
+				var as []string
+				for _, a := range d.args {
+					as = append(as, a.String())
+				}
+				fmt.Fprintf(&sb, "(declare-fun %s (%s) %s)\n", smtName(n), strings.Join(as, " "), d.res)
+			}
+			for gi, o := range group {
+				sb.WriteString("(push 1)\n")
+				for _, h := range sliced[gi] {
+					fmt.Fprintf(&sb, "(assert %s)\n", p.print(h))
+				}
+				if goals[gi] != nil {
+					fmt.Fprintf(&sb, "(assert (not %s))\n", p.print(goals[gi]))
+				}
+				_ = o
+				sb.WriteString("(check-sat)\n(pop 1)\n")
+			}
+			file := filepath.Join(workdir, fmt.Sprintf("batch-%04d.smt2", idx))
+			os.WriteFile(file, []byte(sb.String()), 0o644)
+			t0 := time.Now()
+			ctx, cancel := context.WithTimeout(context.Background(), time.Duration(4*len(group)+10)*time.Second)
+			defer cancel()
+			out, _ := exec.CommandContext(ctx, "z3-new", file).CombinedOutput()
+			secs := time.Since(t0).Seconds() / float64(len(group))
+			var verdicts []string
+			for _, line := range strings.Split(string(out), "\n") {
+				line = strings.TrimSpace(line)
+				if line == "sat" || line == "unsat" || line == "unknown" || line == "timeout" {
+					verdicts = append(verdicts, line)
+				} else if strings.HasPrefix(line, "(error") {
+					verdicts = nil // do not trust a batch with errors
+					break
+				}
+			}
+			if len(verdicts) != len(group) {
+				return
+			}
+			for k, o := range group {
+				switch {
+				case verdicts[k] == "unsat" && !o.Cover:
+					o.Verdict, o.Solver, o.Secs = "unsat", "z3-new(batch)", secs
+				case verdicts[k] == "sat" && o.Cover:
+					o.Verdict, o.Solver, o.Secs = "sat", "z3-new(batch)", secs
+				}
+			}
+			if !keepSMT {
+				os.Remove(file)
+			}
+		}()
+	}
+	wg.Wait()
+}
+
 func (e *Engine) Discharge(tier Tier, workdir string) {
+	if !tier.All {
+		e.batchDischarge(workdir)
+	}
 	var wg sync.WaitGroup
 	sem := make(chan struct{}, 12)
 	for _, o := range e.obls {
@@ -771,7 +904,11 @@ func (e *Engine) dischargeOne(o *Obligation, tier Tier, workdir string) {
 		return
 	}
 	extra := ""
-	q := SMTQuery(o.Hyps, o.Goal, extra, true)
+	hy, gl := SliceHyps(o.Hyps, o.Goal), o.Goal
+	if o.AbsPrefix && !o.Cover {
+		hy, gl = AbstractPrefix(hy, gl)
+	}
+	q := SMTQuery(hy, gl, extra, true)
 	if len(q) > 4_000_000 {
 		o.Verdict = "error"
 		o.Output = fmt.Sprintf("VC too large (%d bytes): function is outside reach", len(q))
